@@ -178,6 +178,9 @@ type Hist struct {
 	// an undecodable unauthenticated record (which makes the receiver send a fatal alert) is delivered to the
 	// server, then the Set call is let through. Reset by Connect.
 	SlowSetJunk bool
+	// SetFails "C" / "S": during the NEXT connection the first Set call of that side's store stores the session
+	// and then reports an error. Reset by Connect.
+	SetFails string
 }
 
 func NewHist(c Config) *Hist {
@@ -434,6 +437,14 @@ func (h *Hist) Connect(w *world.World, p *world.PKI, idx int, m world.Mask, tamp
 		}
 		tr.Visit(fmt.Sprintf("conn%d|", idx)+pr.StateString(n), fmt.Sprintf("open%d", idx))
 	}
+	switch h.SetFails {
+	case "C":
+		h.CS.FailSetAt = h.CS.Sets + 1
+	case "S":
+		h.SS.FailSetAt = h.SS.Sets + 1
+	}
+	h.SetFails = ""
+	defer func() { h.CS.FailSetAt, h.SS.FailSetAt = 0, 0 }()
 	slow := h.SlowSetJunk
 	h.SlowSetJunk = false
 	var gate chan struct{}
